@@ -72,7 +72,8 @@ class Report:
                 kf_lines.append('KNOWN-FINDING: property=%s %s (%s)' % (self.pid, k.get('what', o['key']), o['key']))
             else:
                 new.append(o)
-        os.makedirs(os.path.join(VERIF, 'evidence', 'violations'), exist_ok=True)
+        evdir = os.environ.get('VERIF_EVIDENCE_DIR') or os.path.join(VERIF, 'evidence')
+        os.makedirs(os.path.join(evdir, 'violations'), exist_ok=True)
         out_lines = list(dict.fromkeys(kf_lines))
         seen = set()
         for o in new:
@@ -80,7 +81,7 @@ class Report:
                 continue
             seen.add(o['key'])
             safe = ''.join(c if c.isalnum() or c in '-_.' else '_' for c in o['key'])[:180]
-            path = os.path.join(VERIF, 'evidence', 'violations', safe + '.json')
+            path = os.path.join(evdir, 'violations', safe + '.json')
             with open(path, 'w') as f:
                 json.dump({'property': self.pid, 'tier': self.tier, **o,
                            'rule_text': self.rules.get(o['rule'], '')}, f, indent=1)
@@ -124,7 +125,7 @@ class Report:
             'wall_s': round(time.time() - self.t0, 3),
             'violations': len(seen),
         }
-        with open(os.path.join(VERIF, 'evidence', self.pid + '.json'), 'w') as f:
+        with open(os.path.join(evdir, self.pid + '.json'), 'w') as f:
             json.dump(ev, f, indent=1)
         for l in out_lines:
             print(l)
